@@ -526,10 +526,10 @@ void NifFile::SortGraph(NiNode* root, SortState& sortState) {
 			// 2. Shapes
 			// 3. other
 
-			// Add nodes with children
+			// Add nodes with children (emptied child refs do not count: they are dropped when the file is written)
 			for (auto& index : childIndices) {
 				auto node = hdr.GetBlock<NiNode>(index);
-				if (node && node->childRefs.GetSize() > 0) {
+				if (node && std::any_of(node->childRefs.begin(), node->childRefs.end(), [](auto&& ref) { return !ref.IsEmpty(); })) {
 					newChildIndices.push_back(index);
 					newChildRefs.AddBlockRef(index);
 				}
